@@ -101,6 +101,10 @@ def kit(cls):
 
 
 def build(recipe):
+    if recipe[0] == "zoo":      # ("zoo", cls, expr): a value of the box zoo, as a diagram
+        from mc import zoo
+        v = zoo.value(recipe[1], recipe[2])
+        return v.id(v.dom) >> v
     cls, dom, layers = recipe
     return kit(cls).build(dom, layers)
 
